@@ -36,7 +36,7 @@ func c09CallSites(p *Prog, g *ssa.Function) (sites []ssa.CallInstruction, closed
 		if fnPkgPath(f) != fnPkgPath(g) || len(f.Blocks) == 0 {
 			continue
 		}
-		if f.Synthetic != "" && !strings.HasPrefix(f.Synthetic, "instance of") {
+		if !c09IsSourceFn(f) {
 			continue // promoted-method wrappers, bound-method thunks: not source call sites
 		}
 		AllInstrs(f, func(in ssa.Instruction) {
@@ -90,26 +90,45 @@ func c09ParamOf(v ssa.Value) (*ssa.Function, int) {
 // function all of whose call sites are known, it is replaced by the values
 // passed at those call sites (not above `stop`).  ok is false if some origin cannot be resolved.
 func c09Origins(p *Prog, v ssa.Value, depth int, stop *ssa.Function) (vals []ssa.Value, ok bool) {
+	// a captured variable: the value of the enclosing function's cell
+	if r := c09Resolved(v); r != nil && r != v {
+		if in, isIn := r.(ssa.Instruction); !isIn || in.Parent() != c09ParentOf(v) {
+			return c09Origins(p, r, depth, stop)
+		}
+	}
 	fn, idx := c09ParamOf(v)
 	if fn == nil || fn == stop {
 		return []ssa.Value{v}, true
 	}
-	sites, closed := c09CallSites(p, fn)
+	sites, closed := c09SitesOf(p, fn)
 	if !closed || len(sites) == 0 || depth <= 0 {
 		return []ssa.Value{v}, true // an external input: the parameter itself is the origin
 	}
+	prm := fn.Params[idx]
 	for _, cs := range sites {
-		args := cs.Common().Args
-		if idx >= len(args) {
+		w := cs.Tr(prm)
+		if w == nil {
 			return nil, false
 		}
-		sub, ok := c09Origins(p, args[idx], depth-1, stop)
+		sub, ok := c09Origins(p, w, depth-1, stop)
 		if !ok {
 			return nil, false
 		}
 		vals = append(vals, sub...)
 	}
 	return vals, true
+}
+
+func c09ParentOf(v ssa.Value) *ssa.Function {
+	switch u := v.(type) {
+	case ssa.Instruction:
+		return u.Parent()
+	case *ssa.Parameter:
+		return u.Parent()
+	case *ssa.FreeVar:
+		return u.Parent()
+	}
+	return nil
 }
 
 // c09Vals names the values a guard is about (e.g. "alg", "set"), expressed in
@@ -130,22 +149,21 @@ func c09GuardedUp(p *Prog, at ssa.Instruction, vals c09Vals, find func(fn *ssa.F
 	if depth <= 0 {
 		return false
 	}
-	sites, closed := c09CallSites(p, fn)
+	sites, closed := c09SitesOf(p, fn)
 	if !closed || len(sites) == 0 {
 		return false
 	}
 	for _, cs := range sites {
-		if _, isGo := cs.(*ssa.Go); isGo {
+		if _, isGo := cs.At.(*ssa.Go); isGo {
 			return false
 		}
 		nv := c09Vals{}
 		for role, v := range vals {
-			pf, idx := c09ParamOf(v)
-			if pf == fn && idx < len(cs.Common().Args) {
-				nv[role] = cs.Common().Args[idx]
+			if w := cs.Tr(v); w != nil {
+				nv[role] = w
 			}
 		}
-		if !c09GuardedUp(p, cs.(ssa.Instruction), nv, find, depth-1) {
+		if !c09GuardedUp(p, cs.At, nv, find, depth-1) {
 			return false
 		}
 	}
@@ -527,4 +545,250 @@ func c09FieldRole(named *types.Named, role string) string {
 		}
 	}
 	return role
+}
+
+// ---------- source functions, range-over-func ----------
+
+// c09IsSourceFn: f corresponds to source code of the module: declared functions,
+// closures, generic instances and the synthesized bodies of range-over-func loops
+// (which FuncsOfPkg leaves out).
+func c09IsSourceFn(f *ssa.Function) bool {
+	return f.Synthetic == "" || strings.HasPrefix(f.Synthetic, "instance of") || c09IsYieldBody(f)
+}
+
+// c09IsYieldBody: f is the body of a `for … := range seq` loop over a function iterator.
+func c09IsYieldBody(f *ssa.Function) bool { return f != nil && f.Synthetic == "range-over-func yield" }
+
+// c09FuncsOfPkg = FuncsOfPkg plus the range-over-func bodies nested in them.
+func c09FuncsOfPkg(p *Prog, rel string) []*ssa.Function {
+	out := p.FuncsOfPkg(rel)
+	seen := map[*ssa.Function]bool{}
+	for _, f := range out {
+		seen[f] = true
+	}
+	for i := 0; i < len(out); i++ {
+		for _, a := range out[i].AnonFuncs {
+			if !seen[a] && c09IsYieldBody(a) && len(a.Blocks) > 0 {
+				seen[a] = true
+				out = append(out, a)
+			}
+		}
+	}
+	return out
+}
+
+// c09Site is a place from which a function is entered, together with the
+// translation of values of the entered function's frame (parameters, captured
+// variables) into values of the frame the site lives in (nil: not expressible).
+type c09Site struct {
+	At ssa.Instruction
+	Tr func(v ssa.Value) ssa.Value
+}
+
+// c09Yielders resolves an iterator value (what `for … := range seq` ranges
+// over) to the closures that implement it: seq is the result of a call of an
+// in-module maker function that returns a closure (possibly through wrappers
+// `func tagRefs(m) iter.Seq2 { return selectRefs(m, false) }`).  For each
+// closure the translation of its captured variables / the makers' parameters
+// into the frame of the instruction that called the (outermost) maker.
+type c09Yielder struct {
+	Fn *ssa.Function          // func(yield) { … }
+	Tr func(v ssa.Value) ssa.Value // producer frame -> frame of the maker call
+}
+
+func c09Yielders(seq ssa.Value, depth int) []c09Yielder {
+	var out []c09Yielder
+	if depth > 3 {
+		return nil
+	}
+	for _, rt := range Roots(c09Resolved(seq)) {
+		switch u := rt.(type) {
+		case *ssa.MakeClosure:
+			fn := u.Fn.(*ssa.Function)
+			mc := u
+			out = append(out, c09Yielder{fn, func(v ssa.Value) ssa.Value {
+				// a captured variable read inside the closure: the value bound at creation
+				r := c09Resolved(v)
+				if ld, ok := strip(v).(*ssa.UnOp); ok {
+					if fv, ok := ld.X.(*ssa.FreeVar); ok && fv.Parent() == fn {
+						for i, f := range fn.FreeVars {
+							if f == fv {
+								if a, isAlloc := mc.Bindings[i].(*ssa.Alloc); isAlloc {
+									if st := storesTo(a); len(st) == 1 {
+										return st[0].Val
+									}
+								}
+							}
+						}
+					}
+				}
+				if in, ok := r.(ssa.Instruction); ok && in.Parent() == mc.Parent() {
+					return r
+				}
+				if prm, ok := r.(*ssa.Parameter); ok && prm.Parent() == mc.Parent() {
+					return r
+				}
+				return nil
+			}})
+		case *ssa.Call:
+			g := StaticCallee(u)
+			if g == nil || !inModule(g) || len(g.Blocks) == 0 {
+				continue
+			}
+			args := u.Call.Args
+			for _, a := range RetAtoms(g, 0) {
+				for _, y := range c09Yielders(a.Val, depth+1) {
+					inner := y.Tr
+					out = append(out, c09Yielder{y.Fn, func(v ssa.Value) ssa.Value {
+						w := inner(v) // value in g's frame
+						if w == nil {
+							return nil
+						}
+						if pf, i := c09ParamOf(w); pf == g && i < len(args) {
+							return args[i]
+						}
+						if _, isConst := w.(*ssa.Const); isConst {
+							return w
+						}
+						return nil
+					}})
+				}
+			}
+		}
+	}
+	return out
+}
+
+// c09YieldCalls: the calls of the yield parameter inside a producer closure.
+func c09YieldCalls(producer *ssa.Function) []*ssa.Call {
+	var out []*ssa.Call
+	if len(producer.Params) == 0 {
+		return nil
+	}
+	yield := producer.Params[len(producer.Params)-1]
+	AllInstrs(producer, func(in ssa.Instruction) {
+		if call, ok := in.(*ssa.Call); ok && !call.Call.IsInvoke() && call.Call.Value == ssa.Value(yield) {
+			out = append(out, call)
+		}
+	})
+	return out
+}
+
+// c09RangeFuncCall: in.(*ssa.Call) invokes an iterator with a range-over-func body.
+func c09RangeFuncCall(in ssa.Instruction) (seq ssa.Value, body *ssa.Function, ok bool) {
+	call, isCall := in.(*ssa.Call)
+	if !isCall || call.Call.IsInvoke() || len(call.Call.Args) != 1 {
+		return nil, nil, false
+	}
+	mc, isMC := call.Call.Args[0].(*ssa.MakeClosure)
+	if !isMC || !c09IsYieldBody(mc.Fn.(*ssa.Function)) {
+		return nil, nil, false
+	}
+	return call.Call.Value, mc.Fn.(*ssa.Function), true
+}
+
+// c09SitesOf: where fn is entered from.
+//   - named unexported function: its static call sites (closed world);
+//   - range-over-func body: the yield calls of the producers of the iterator it is passed to
+//     (parameters = the yielded values);
+//   - closure called directly where it is created, or immediately applied;
+//   - producer closure returned by a maker: the places where the maker's result is invoked.
+// closed is false when some entry cannot be seen.
+func c09SitesOf(p *Prog, fn *ssa.Function) (sites []c09Site, closed bool) {
+	if fn.Parent() == nil {
+		cs, ok := c09CallSites(p, fn)
+		for _, c := range cs {
+			args := c.Common().Args
+			sites = append(sites, c09Site{c.(ssa.Instruction), func(v ssa.Value) ssa.Value {
+				if pf, i := c09ParamOf(v); pf == fn && i < len(args) {
+					return args[i]
+				}
+				return nil
+			}})
+		}
+		return sites, ok
+	}
+	closed = true
+	parent := fn.Parent()
+	AllInstrs(parent, func(in ssa.Instruction) {
+		mc, ok := in.(*ssa.MakeClosure)
+		if !ok || mc.Fn != fn {
+			return
+		}
+		for _, ref := range *mc.Referrers() {
+			switch u := ref.(type) {
+			case *ssa.DebugRef:
+			case ssa.CallInstruction:
+				cc := u.Common()
+				if cc.Value == ssa.Value(mc) { // called where created
+					args := cc.Args
+					sites = append(sites, c09Site{u.(ssa.Instruction), func(v ssa.Value) ssa.Value {
+						if pf, i := c09ParamOf(v); pf == fn && i < len(args) {
+							return args[i]
+						}
+						if r := c09Resolved(v); r != v {
+							return r
+						}
+						return nil
+					}})
+					continue
+				}
+				if seq, body, isRF := c09RangeFuncCall(u.(ssa.Instruction)); isRF && body == fn {
+					ys := c09Yielders(seq, 0)
+					if len(ys) == 0 {
+						closed = false
+					}
+					for _, y := range ys {
+						for _, yc := range c09YieldCalls(y.Fn) {
+							yargs := yc.Call.Args
+							sites = append(sites, c09Site{yc, func(v ssa.Value) ssa.Value {
+								if pf, i := c09ParamOf(v); pf == fn && i < len(yargs) {
+									return yargs[i]
+								}
+								return nil
+							}})
+						}
+					}
+					continue
+				}
+				closed = false // handed to something else
+			case *ssa.Return:
+				// a producer: entered wherever the maker's result is invoked
+				makerSites, ok := c09CallSites(p, parent)
+				if !ok {
+					closed = false
+				}
+				for _, ms := range makerSites {
+					v := ms.Value()
+					if v == nil {
+						closed = false
+						continue
+					}
+					margs := ms.Common().Args
+					for _, use := range *v.Referrers() {
+						uc, isCall := use.(*ssa.Call)
+						if !isCall || uc.Call.Value != v {
+							if _, isDbg := use.(*ssa.DebugRef); !isDbg {
+								closed = false
+							}
+							continue
+						}
+						sites = append(sites, c09Site{uc, func(x ssa.Value) ssa.Value {
+							r := c09Resolved(x) // captured variable of the producer -> value in the maker
+							if pf, i := c09ParamOf(r); pf == parent && i < len(margs) {
+								return margs[i]
+							}
+							return nil
+						}})
+					}
+				}
+			default:
+				closed = false
+			}
+		}
+	})
+	if len(sites) == 0 {
+		closed = false
+	}
+	return sites, closed
 }
